@@ -2,7 +2,9 @@
 from __future__ import annotations
 
 import base64
+import binascii
 import quopri
+import re
 from abc import abstractmethod, ABCMeta
 from email.headerregistry import ContentTransferEncodingHeader
 
@@ -93,7 +95,17 @@ class _QuotedPrintableDecoder(MessageDecoder):
 
 class _Base64Decoder(MessageDecoder):
 
+    _non_alphabet = re.compile(br'[^A-Za-z0-9+/]')
+
     def decode(self, body: MessageBody) -> Writeable:
         raw = bytes(body)
-        ret = base64.b64decode(raw)
+        try:
+            ret = base64.b64decode(raw)
+        except binascii.Error:
+            # damaged data (bad padding, truncation): decode what a lenient
+            # reader would instead of failing while the response is written
+            data = self._non_alphabet.sub(b'', raw)
+            if len(data) % 4 == 1:
+                data = data[:-1]
+            ret = base64.b64decode(data + b'=' * (-len(data) % 4))
         return Writeable.wrap(ret)
